@@ -13,7 +13,8 @@ import ast
 from sa import sym
 from sa.sym import show, num, num_value, atoms_of
 from sa.cfg import CFG, enclosing_stmts
-from sa.model import dotted, own_calls, own_nodes, callee_attr
+from sa.model import dotted, own_calls, own_nodes, callee_attr, inline_helpers
+from . import common
 
 PIPE = "toasty.pipeline"
 SENTINEL = "index.wtml"
@@ -44,6 +45,8 @@ def run(run):
     project = run.project
     f = project.fn(PIPE + ".PipelineManager.publish")
     run.note_func(f)
+    # procedure-like helpers of the manager (e.g. "upload one approved image") are spliced into publish
+    f = inline_helpers(project, f, lambda owner, call: common.resolve_callee(project, owner, call))
     ev = sym.make_evaluator(project, PIPE, [])
     r = ev.run(f.node)
     cfg = CFG(f.node)
@@ -173,24 +176,34 @@ def _r1(run, f, r, cfg, it_file, lnode, inode):
     detail = ""
     # (a) swap idiom
     idx_call = ("call", ("attr", L, "index"), (sentinel,), ())
-    st_last = [e for e in stores if e.term[1][0][2] == num(-1)]
-    st_idx = [e for e in stores if e.term[1][0][2] == idx_call]
+    last_forms = (num(-1), sym.sub(("call", ("sym", "len"), (L,), ()), num(1)))
+
+    def slot(e):
+        lv = e.term[1][0]
+        return lv[2] if lv[0] == "sub" else num(lv[2])
+
+    def is_last(t):
+        return t in last_forms
+
+    def is_sentinel_value(v):
+        # the sentinel itself, or the element found at its position
+        return v == sentinel or v == ("sub", L, idx_call)
+    st_last = [e for e in stores if is_last(slot(e))]
+    st_idx = [e for e in stores if slot(e) == idx_call]
     if st_last or st_idx:
-        ok = len(st_last) == 1 and len(st_idx) == 1 and st_last[0].term[1][1] == sentinel and st_idx[0].term[1][1] == ("sub", L, num(-1))
-        # the saved old last element must be read *before* it is overwritten: order of events
+        ok = len(st_last) == 1 and len(st_idx) == 1 and is_sentinel_value(st_last[0].term[1][1]) \
+            and st_idx[0].term[1][1][0] == "sub" and st_idx[0].term[1][1][1] == L and is_last(st_idx[0].term[1][1][2])
         if ok:
-            order_ok = r.events.index(st_last[0]) < r.events.index(st_idx[0])
-            # temp = L[-1] evaluated before the store: the evaluator substituted its value; fine.
-            # both stores on the path where index() succeeded (else-branch of the try / not in the ValueError handler)
+            # both stores on the path where the sentinel is present (else-branch of the try / `if sentinel in L`)
             pcs = [c for c in st_last[0].pc if c[0] != "loop"]
             in_handler = any(c[0][0] == "op" and c[0][1] == "except" and c[1] for c in pcs)
-            ok = not in_handler
+            other = [c for c in pcs if not (c[0][0] == "op" and c[0][1] == "except")]
+            guard_ok = all(c == (("op", "cmp:In", (sentinel, L)), True) for c in other)
+            ok = not in_handler and guard_ok
         if ok:
             idiom = "swap"
         else:
-            got = [(show(e.term[1][0][2])[:30], show(e.term[1][1])[:40]) for e in st_last + st_idx]
-            # sentinel moved to the front?
-            front = [e for e in stores if e.term[1][0][2] == num(0) and e.term[1][1] == sentinel]
+            got = [(show(slot(e))[:30], show(e.term[1][1])[:40]) for e in st_last + st_idx]
             run.violated("C18.R1", f, (st_last + st_idx)[0].node, "the listing is rearranged as %s: that does not put 'index.wtml' into the last slot while keeping every "
                          "other file (expected L[-1], L[i] = 'index.wtml', L[-1] with i = L.index('index.wtml'))" % got, kind="swap-idiom")
             return
@@ -332,7 +345,8 @@ def _r6(run):
     target = ("call", ("attr", ("sym", "self"), "_make_item_name"), (("sym", vararg),), ())
     final_write = None
     for e in opens:
-        if len(e.term[2]) >= 2 and e.term[2][1] in (("const", "wb"),):
+        mode_t = e.term[2][1] if len(e.term[2]) >= 2 else dict(e.term[3]).get("mode")
+        if mode_t in (("const", "wb"),):
             final_write = e
     if final_write is None:
         problems.append("the item is not opened with mode 'wb' (truncate/overwrite)")
@@ -342,7 +356,10 @@ def _r6(run):
                 and e.term[2][0] == final_write.term[2][0]]
         if not repl:
             problems.append("data are written to %s, not to the item path made of the given components" % show(final_write.term[2][0])[:80])
-    if not copies or copies[0].term[2][0] != ("sym", "source"):
+    cp_src = None
+    if copies:
+        cp_src = copies[0].term[2][0] if copies[0].term[2] else dict(copies[0].term[3]).get("fsrc")
+    if not copies or cp_src != ("sym", "source"):
         problems.append("the source stream is not copied into the item")
     if problems:
         run.violated("C18.R6", f, None, "LocalPipelineIo.put_item: " + "; ".join(problems), kind="local-store-write")
